@@ -53,7 +53,7 @@ def outputs(facts, fn, bind, follow=None):
             continue
         if e.kind == 'call':
             n = e.name
-            if n == 'sink_.push_back':
+            if is_sink_push(n):
                 out.append(('byte', e.args[0] if e.args and isinstance(e.args[0], int) else None, e.line))
             elif n.split('::')[-1] in ('native_to_big', 'native_to_little'):
                 ta = (e.extra.get('ta') or ['?'])[0]
@@ -63,6 +63,10 @@ def outputs(facts, fn, bind, follow=None):
         elif e.kind == 'throw':
             err = True
     return out, err, pe.effects
+
+def is_sink_push(name):
+    """push_back on the encoder's sink: the member `sink_`, or the sink handed to a static helper as a parameter (`sink`)"""
+    return name.endswith('.push_back') and name.split('.')[0].rstrip('_') == 'sink'
 
 RT = {v: k for k, v in c07.CTYPE.items() if k not in ('half',)}
 
@@ -500,7 +504,7 @@ def marker_pairs(facts, fn, bind=None):
     effs = [e for e in pe.effects if e.kind == 'call']
     for i, e in enumerate(effs):
         one_byte_conv = e.name.split('::')[-1] in ('native_to_big', 'native_to_little') and (e.extra.get('ta') or ['?'])[0] in ('unsigned char', 'signed char', 'char')
-        if (e.name == 'sink_.push_back' or one_byte_conv) and e.args and isinstance(e.args[0], int) and not any(g.startswith('loop@') for g in e.guards):
+        if (is_sink_push(e.name) or one_byte_conv) and e.args and isinstance(e.args[0], int) and not any(g.startswith('loop@') for g in e.guards):
             nxt = next((x for x in effs[i + 1:i + 4] if 'back_inserter' not in x.name), None)
             conv = None
             if nxt is not None and nxt.name.split('::')[-1] in ('native_to_big', 'native_to_little') and nxt.guards == e.guards:
